@@ -14,12 +14,13 @@ Qed.
    somebody else also holds a count: it never waits for its own dispatch *)
 Lemma self_cancel_ok progs nids bds c t th i old rest :
   reachable (init progs nids bds) c -> crashed c = false ->
-  nth_error (threads c) t = Some th -> todo th = ICwWait i old :: rest -> proc th = Some i ->
+  nth_error (threads c) t = Some th -> todo th = ICwWait i old :: rest \/ (exists ep, todo th = ICwBlk i old ep :: rest) ->
+  proc th = Some i ->
   (2 <= cnt old)%N.
 Proof.
   intros R NC Ht Htd Hp. pose proof (Forall_nth_error _ _ _ _ (reachable_wf _ _ _ _ R NC) Ht) as W.
-  unfold wf_thread in W. rewrite Htd in W. apply shape_cons in W. split_all; try discriminate.
-  simpl in H0. rewrite Hp in H0. simpl in H0. rewrite Nat.eqb_refl in H0. destruct H0 as [|(_ & ?)]; auto; discriminate.
+  unfold wf_thread in W. destruct Htd as [Htd | (ep & Htd)]; rewrite Htd in W; apply shape_cons in W; split_all; try discriminate.
+  all: simpl in H0; rewrite Hp in H0; simpl in H0; rewrite Nat.eqb_refl in H0; destruct H0 as [|(_ & ?)]; auto; discriminate.
 Qed.
 (* ... and when it is the only holder it goes straight to the CAS *)
 Lemma self_cancel_no_wait th i w : proc th = Some i -> cnt w = 1%N -> cw_after_load th i w = ICwCas i w.
